@@ -330,7 +330,7 @@ def draw_ops(seed):
         elif k == 'append_field':
             ops.append([k, a, b])
         elif k == 'insert_field':
-            ops.append([k, a, b, r.randint(0, 3)])
+            ops.append([k, a, b, r.randint(-4, 4)])
         else:
             ops.append([k])
     return ops
@@ -917,7 +917,12 @@ class Machine(object):
         own_before = dict((j, list(self.pool[j]._type_info.keys()))
                           for j in direct)
         if insert:
-            idx = op[3] % (len(cls._type_info) + 1)
+            idx = op[3]
+            n_own = len(cls._type_info)
+            if idx > n_own:
+                idx = n_own
+            if idx < -n_own:
+                idx = -n_own
             cls.insert_field(idx, name, ft)
         else:
             cls.append_field(name, ft)
@@ -953,8 +958,18 @@ class Machine(object):
                         break
             own = list(c._type_info.keys())
             exp = list(own_before[j])
+            if insert and idx < 0 and own_before[j] != own_before[i]:
+                # a variant that has fields of its own: "from the end" has no
+                # defined meaning relative to the class; only presence counts
+                if name not in own:
+                    self.viol('evolve|insert_field|variant-missing', 'variant '
+                              '%d did not get field %s' % (j, name))
+                continue
             if insert:
-                exp.insert(min(idx, len(exp)), name)
+                # same position as in the class itself (list.insert semantics
+                # relative to the fields the class had), in every variant
+                pos = idx if idx >= 0 else max(0, n_own + idx)
+                exp.insert(min(pos, len(exp)), name)
             else:
                 exp.append(name)
             if own != exp:
